@@ -86,7 +86,7 @@ def c02_configs(tier, seed):
 
 PROPS["C02"] = dict(
     module="RaptorModel.Props.C02",
-    extra_theorem_modules=["RaptorModel.Props.C02Par", "RaptorModel.Props.C02Halo"],
+    extra_theorem_modules=["RaptorModel.Props.C02Par", "RaptorModel.Props.C02Halo", "RaptorModel.Props.C02Block"],
     harnesses=["h_c02", "h_c07p"],
     configs=c02_configs,
     rule=("sequential: random matrices (0..10, rectangular, empty, duplicates, explicit zeros) in COO/CSR/CSC x 7 kernels; "
